@@ -26,6 +26,51 @@ def getIvs (j : Json) : Except String (List Iv) := do
     | [c, a, b, s] => pure ⟨c, a, b, s⟩
     | _ => throw "bad interval")
 
+
+def getPSteps (j : Json) : Except String (List PStep) := do
+  let l ← getArr j "steps"
+  l.mapM (fun x => do
+    let k ← getStr x "k"
+    match k with
+    | "rc" => pure PStep.rc
+    | "translate" => pure PStep.translate
+    | "same" => pure PStep.same
+    | "replace" => do pure (PStep.replace (← getNatListList x "rows"))
+    | "idx" => do pure (PStep.idx (← getNatList x "p"))
+    | "concat" => do pure (PStep.concat (← getNat x "n"))
+    | _ => throw s!"bad pipeline step {k}")
+
+def getGSteps (sizes : List Nat) (j : Json) : Except String (List GStep) := do
+  let l ← getArr j "steps"
+  l.mapM (fun x => do
+    let k ← getStr x "k"
+    match k with
+    | "clip" => pure (GStep.clip sizes)
+    | "same" => pure GStep.replaceSame
+    | "idx" => do pure (GStep.idx (← getNatList x "p"))
+    | "concat" => do pure (GStep.concat (← getNat x "n"))
+    | _ => throw s!"bad derivation step {k}")
+
+/-- one pipeline stage as the harness canonicalises it -/
+def stageJ (named : Bool) (names : Option (List Bytes)) (rows : Option (List Bytes)) : Json :=
+  match names, rows with
+  | some n, some r =>
+    if named then Json.mkObj [("names", natList (n.map (fun x => x.headD 0))), ("rows", natListList r)]
+    else Json.mkObj [("rows", natListList r)]
+  | _, _ => errJ "other:no-column"
+
+/-- the property's reading of a pipeline: names and sequence column stage by stage -/
+def specStages : List Bytes → List Bytes → List PStep → Option (List (List Bytes × List Bytes))
+  | n, r, [] => some [(n, r)]
+  | n, r, s :: ss =>
+    match specStepSeq r s with
+    | none => none
+    | some r' =>
+      let n' := match s with
+        | .idx p => selRows p n
+        | _ => n
+      (specStages n' r' ss).map (fun rest => (n, r) :: rest)
+
 def handle (op : String) (j : Json) : Except String Json := do
   match op with
   | "rc" =>
@@ -62,6 +107,40 @@ def handle (op : String) (j : Json) : Except String Json := do
     let s := match Base.omap specTranslate rows with
       | some out => Json.mkObj [("rows", natListList out)]
       | none => errJ "outside-genetic-code"
+    pure (reply m (some s))
+  | "pipe" =>
+    let rows ← getNatListList j "rows"
+    let named ← getBool j "named"
+    let steps ← getPSteps j
+    let names := (List.range rows.length).map (fun i => [i])
+    let t0 : Table := ⟨[("name", names), ("sequence", rows)], []⟩
+    let m := match runPipe Gen.C14.ASCII Gen.C14.codon t0 steps with
+      | some ts => Json.mkObj [("stages", Json.arr (ts.map (fun t => stageJ named (t.get "name") (t.get "sequence"))).toArray)]
+      | none => errJ "other:model-none"
+    let s := match specStages names rows steps with
+      | some st => Json.mkObj [("stages", Json.arr (st.map (fun p => stageJ named (some p.1) (some p.2))).toArray)]
+      | none => errJ "outside-domain"
+    pure (reply m (some s))
+  | "strand_gi" =>
+    let T ← findTab (← getStr j "enc")
+    let seqs ← getNatListList j "codes"
+    let stranded ← getBool j "stranded"
+    let sizes := seqs.map List.length
+    let steps ← getGSteps sizes j
+    let origin ← getStr j "origin"
+    let g0 ← (if origin == "loc" then do
+        let l ← getNatListList j "locs"
+        let locs ← l.mapM (fun x => match x with
+          | [c, p, st] => pure (c, p, st)
+          | _ => throw "bad location")
+        pure (windows sizes (← getNat j "flank") locs stranded)
+      else do pure (⟨← getIvs j, stranded⟩ : GI))
+    let g := steps.foldl GI.step g0
+    let m := rowsJ T (getitem T seqs g)
+    let s := match Base.omap (decode T) seqs with
+      | some t => Json.mkObj [("rows", natListList (if stranded then specStrand t g.ivs else relevant t g.ivs)),
+                              ("enc_same", Json.bool true)]
+      | none => errJ "other:undecodable"
     pure (reply m (some s))
   | "transcripts" =>
     let T ← findTab "ACGTN"
